@@ -278,18 +278,21 @@ def run(chk):
                                  dict(total_stars=float(np.nansum(o_t.Ns[0])), expected=float(np.nansum(objs[0].Ns[0]))))
             # the SAME IMF object used again for a population twice as large (and a rate twice as strong): nothing may be remembered
             # from the first construction - the result equals the one built from scratch at that size
-            if cname == "InitialBHPopulation":
-                o_again = emf.InitialBHPopulation.from_IMF(imf_a, [3, 3, 10], -1.0, N0=2 * N0, natal_kicks=False)
-                o_fresh = emf.InitialBHPopulation.from_powerlaw(mbk, sl, [3, 3, 10], -1.0, N0=2 * N0, natal_kicks=False)
-                pair = [np.r_[o.N, o.M, o.age, o.Ns_lost, o.Ms_lost] for o in (o_again, o_fresh)]
-            else:
-                o_again = cls(imf_a, [3, 3, 10], -1.0, [9000.0], -20.0, *pos, N0=2 * N0, **ex)
-                o_fresh = cls.from_powerlaw(mbk, sl, [3, 3, 10], -1.0, [9000.0], -20.0, *pos, N0=2 * N0, **ex)
-                pair = [np.r_[o.Ns[0], o.alpha[0], o.Ms[0], o.Nr.WD[0], o.Nr.BH[0], o.Mr.BH[0]] for o in (o_again, o_fresh)]
-        if not np.array_equal(np.nan_to_num(pair[0]), np.nan_to_num(pair[1])):
-            chk.fail("an IMF object's own N0 is irrelevant once N0 is passed explicitly; from_powerlaw is equivalent to passing the IMF object",
-                     dict(cls=cname, variant="same IMF object re-used at twice the size", extra=extra),
-                     dict(max_abs_diff=float(np.nanmax(np.abs(pair[0] - pair[1]))), total_again=float(np.nansum(pair[0][:5])), total_fresh=float(np.nansum(pair[1][:5]))))
+            pairs = []
+            for which, imf_re in (("IMF(N0=N0)", imf_a), ("IMF(N0=1)", imf_b)):     # own N0 equal to / different from the first construction's
+                if cname == "InitialBHPopulation":
+                    o_again = emf.InitialBHPopulation.from_IMF(imf_re, [3, 3, 10], -1.0, N0=2 * N0, natal_kicks=False)
+                    o_fresh = emf.InitialBHPopulation.from_powerlaw(mbk, sl, [3, 3, 10], -1.0, N0=2 * N0, natal_kicks=False)
+                    pairs.append((which, [np.r_[o.N, o.M, o.age, o.Ns_lost, o.Ms_lost] for o in (o_again, o_fresh)]))
+                else:
+                    o_again = cls(imf_re, [3, 3, 10], -1.0, [9000.0], -20.0, *pos, N0=2 * N0, **ex)
+                    o_fresh = cls.from_powerlaw(mbk, sl, [3, 3, 10], -1.0, [9000.0], -20.0, *pos, N0=2 * N0, **ex)
+                    pairs.append((which, [np.r_[o.Ns[0], o.alpha[0], o.Ms[0], o.Nr.WD[0], o.Nr.BH[0], o.Mr.BH[0]] for o in (o_again, o_fresh)]))
+        for which, pair in pairs:
+            if not np.array_equal(np.nan_to_num(pair[0]), np.nan_to_num(pair[1])):
+                chk.fail("an IMF object's own N0 is irrelevant once N0 is passed explicitly; from_powerlaw is equivalent to passing the IMF object",
+                         dict(cls=cname, variant="same IMF object (%s) re-used at twice the size" % which, extra=extra),
+                         dict(max_abs_diff=float(np.nanmax(np.abs(pair[0] - pair[1]))), total_again=float(np.nansum(pair[0][:5])), total_fresh=float(np.nansum(pair[1][:5]))))
         chk.count("N0-override / from_powerlaw comparisons")
         labels = ["IMF(N0=N0)", "IMF(N0=1)", "IMF.from_M0", "from_powerlaw"]
         for lab, a in zip(labels[1:], arrs[1:]):
